@@ -9,6 +9,7 @@ the flag ``glued`` (x = x_min identified with x = x_max).
 Sides of a rectangle: 0 bottom (t = t0), 1 right (x = x1), 2 top (t = t1), 3 left (x = x0); this is
 the edge order of ``src.mesh.Element`` but that correspondence is only used by the explorer.
 """
+import math
 from fractions import Fraction
 
 BOTTOM, RIGHT, TOP, LEFT = 0, 1, 2, 3
@@ -41,13 +42,14 @@ def overlap_area_positive(a, b):
 
 class View:
     """Reference state: dict rect -> (level_t, level_x) + cylinder + glue flag (+ lazy line index)."""
-    __slots__ = ("leaves", "glued", "t_min", "t_max", "x_min", "x_max", "_idx")
+    __slots__ = ("leaves", "glued", "t_min", "t_max", "x_min", "x_max", "_idx", "_cache")
 
     def __init__(self, leaves, glued, t_min, t_max, x_min, x_max):
         self.leaves = dict(leaves)
         self.glued = bool(glued)
         self.t_min, self.t_max, self.x_min, self.x_max = t_min, t_max, x_min, x_max
         self._idx = None
+        self._cache = None      # (L, {rect: scaled integer rect}); append-only, shared between copies
 
     @classmethod
     def initial(cls, glued, space, time):
@@ -58,7 +60,15 @@ class View:
         return cls(leaves, glued, time[0], time[-1], space[0], space[-1])
 
     def copy(self):
-        return View(self.leaves, self.glued, self.t_min, self.t_max, self.x_min, self.x_max)
+        v = View(self.leaves, self.glued, self.t_min, self.t_max, self.x_min, self.x_max)
+        v._cache = self._cache
+        return v
+
+    def share_cache(self, other):
+        """Reuse the (append-only) table rect -> scaled integers of another view of the same cylinder."""
+        if other is not None and other._cache is not None:
+            self._cache = other._cache
+        return self
 
     def key(self):
         return frozenset(self.leaves)
@@ -66,15 +76,67 @@ class View:
     def __len__(self):
         return len(self.leaves)
 
-    # -- line index: coordinate -> set of leaves having that coordinate as t0 / t1 / x0 / x1 ---------------
-    def index(self):
+    # -- line index ------------------------------------------------------------------------------------
+    # Purely an accelerator of the exact geometry: all coordinates are multiplied by a common denominator
+    # `L` (lcm of the denominators, times 4 as head room for new midpoints) so that the comparisons in
+    # geo_nbrs are integer comparisons.  idx[k][c] = set of leaves whose k-th coordinate (t0,t1,x0,x1) is c.
+    def index(self, min_scale=1):
         if self._idx is None:
+            cache = self._cache
+            if cache is not None and cache[0] is not None and cache[0] % min_scale == 0:
+                L, table = cache
+                ir = {}
+                for r in self.leaves:
+                    q = table.get(r)
+                    if q is None:
+                        q = []
+                        for c in r:
+                            v = c * L
+                            if v.denominator != 1:
+                                q = None
+                                break
+                            q.append(v.numerator)
+                        if q is None:
+                            ir = None       # a coordinate off this lattice: rebuild with a finer scale
+                            break
+                        q = table[r] = tuple(q)
+                    ir[r] = q
+            else:
+                ir = None
+            if ir is None:
+                dens = set()
+                for r in self.leaves:
+                    for c in r:
+                        dens.add(getattr(c, "denominator", None))
+                for c in (self.x_min, self.x_max):
+                    dens.add(getattr(c, "denominator", None))
+                if None in dens:            # not rationals (float coordinates): compare the numbers themselves
+                    L = None
+                else:
+                    L = math.lcm(4 * math.lcm(*dens), min_scale)
+                ir = {r: (r if L is None else tuple(int(c * L) for c in r)) for r in self.leaves}
+                self._cache = (L, dict(ir))
             idx = ({}, {}, {}, {})
-            for r in self.leaves:
+            for r, q in ir.items():
                 for k in range(4):
-                    idx[k].setdefault(r[k], set()).add(r)
-            self._idx = idx
+                    idx[k].setdefault(q[k], set()).add(r)
+            seam = (self.x_min, self.x_max) if L is None else (int(self.x_min * L), int(self.x_max * L))
+            self._idx = (idx, ir, L, seam)
         return self._idx
+
+    def to_int(self, rect):
+        """Scaled integer coordinates of an arbitrary rectangle (None if not representable at this scale)."""
+        idx, ir, L, _ = self.index()
+        q = ir.get(rect)
+        if q is not None or L is None:
+            return q if q is not None else rect
+        out = []
+        for c in rect:
+            v = c * L
+            if getattr(v, "denominator", 1) != 1:
+                return None
+            out.append(int(v))
+        return tuple(out)
 
     def bisect(self, rect, ax):
         """Replace leaf `rect` by its two halves in axis `ax` (level[ax] + 1). No closure."""
@@ -85,10 +147,24 @@ class View:
             assert c not in self.leaves
             self.leaves[c] = new_lv
         if self._idx is not None:
+            idx, ir, L, _ = self._idx
+            q = ir[rect]
+            lo, hi = (q[0], q[1]) if ax == 0 else (q[2], q[3])
+            if L is not None and (lo + hi) % 2:
+                self._idx = None        # midpoint not on the integer lattice: rebuild lazily at a finer scale
+                return h
+            m = (lo + hi) // 2 if L is not None else (lo + hi) / 2
+            qs = ((q[0], m, q[2], q[3]), (m, q[1], q[2], q[3])) if ax == 0 else \
+                 ((q[0], q[1], q[2], m), (q[0], q[1], m, q[3]))
+            del ir[rect]
             for k in range(4):
-                self._idx[k][rect[k]].discard(rect)
-                for c in h:
-                    self._idx[k].setdefault(c[k], set()).add(c)
+                idx[k][q[k]].discard(rect)
+            for c, qc in zip(h, qs):
+                ir[c] = qc
+                if L is not None:
+                    self._cache[1][c] = qc
+                for k in range(4):
+                    idx[k].setdefault(qc[k], set()).add(c)
         return h
 
 
@@ -97,27 +173,35 @@ def geo_nbrs(view, rect, side):
 
     When the view is glued, the lines x = x_min and x = x_max are identified for the left/right sides.
     `rect` itself can be among the result (one root around a glued cylinder)."""
-    t0, t1, x0, x1 = rect
-    it0, it1, ix0, ix1 = view.index()
+    idx, ir, L, seam = view.index()
+    q = view.to_int(rect)
+    if q is None:                       # rectangle off the integer lattice: re-index on a finer one
+        view._idx = None
+        idx, ir, L, seam = view.index(min_scale=L * math.lcm(*[c.denominator for c in rect]))
+        q = view.to_int(rect)
+    t0, t1, x0, x1 = q
+    it0, it1, ix0, ix1 = idx
     out = set()
     if side == BOTTOM or side == TOP:
         cands = it1.get(t0, ()) if side == BOTTOM else it0.get(t1, ())
         for c in cands:
-            if max(c[2], x0) < min(c[3], x1):
+            qc = ir[c]
+            if qc[2] < x1 and x0 < qc[3]:
                 out.add(c)
         return out
     if side == RIGHT:
         line = x1
-        if view.glued and x1 == view.x_max:
-            line = view.x_min
+        if view.glued and rect[3] == view.x_max:
+            line = seam[0]
         cands = ix0.get(line, ())
     else:
         line = x0
-        if view.glued and x0 == view.x_min:
-            line = view.x_max
+        if view.glued and rect[2] == view.x_min:
+            line = seam[1]
         cands = ix1.get(line, ())
     for c in cands:
-        if max(c[0], t0) < min(c[1], t1):
+        qc = ir[c]
+        if qc[0] < t1 and t0 < qc[1]:
             out.add(c)
     return out
 
@@ -187,18 +271,55 @@ def irregular_pairs(view, ax, limit=None):
     return out
 
 
+FULL_SCAN_LIMIT = 80
+
+
 def closure_fixpoint(view, rect, ax, pick=min):
     """Least 1-irregular (in axis ax) refinement of `view` containing the bisection of `rect` in `ax`:
     start with the requested bisection; while some leaf has an edge-neighbour whose level[ax] is lower by
-    more than one, bisect that coarser neighbour in `ax`."""
+    more than one, bisect that coarser neighbour in `ax`.
+
+    Views with at most FULL_SCAN_LIMIT leaves (all states of the exhaustive exploration) are re-scanned
+    completely in every round; on larger views (random histories) only the neighbourhoods of leaves created in
+    this call are scanned, i.e. the previous view is taken to be 1-irregular (which the explorer has checked
+    on the previous step)."""
     w = view.copy()
-    w.bisect(rect, ax)
+    fresh = list(w.bisect(rect, ax))
     while True:
-        bad = irregular_pairs(w, ax)
+        if len(w.leaves) <= FULL_SCAN_LIMIT:
+            bad = irregular_pairs(w, ax)
+        else:
+            bad = []
+            for r in fresh:
+                if r not in w.leaves:
+                    continue
+                lv = w.leaves[r][ax]
+                for n in all_nbrs(w, r):
+                    d = w.leaves[n][ax] - lv
+                    if d < -1:
+                        bad.append((r, n))
+                    elif d > 1:
+                        bad.append((n, r))
         if not bad:
             return w
         coarse = pick(sorted({c for _, c in bad}))
-        w.bisect(coarse, ax)
+        fresh.extend(w.bisect(coarse, ax))
+
+
+def overlapping_pair(view):
+    """Two leaves of the view overlapping in positive area, or None (exact; sweep over t0)."""
+    idx, ir, L, _ = view.index()
+    items = sorted(ir.items(), key=lambda kv: (kv[1][0], kv[1][2]))
+    n = len(items)
+    for i in range(n):
+        r, q = items[i]
+        for j in range(i + 1, n):
+            r2, q2 = items[j]
+            if q2[0] >= q[1]:
+                break
+            if q2[2] < q[3] and q[2] < q2[3]:
+                return r, r2
+    return None
 
 
 # ---------------------------------------------------------------------------------------------------
